@@ -476,12 +476,101 @@ def perms_of(r, n, count):
     return out
 
 
+# ----------------------------------------------------------------------------- public-API leg (quick and thorough)
+def api_flags():
+    """-O0 -g1 (with the sanitizers): the method headers compile in ~35 s"""
+    fl = [f for f in vlib.HARNESS_FLAGS if f not in ("-O1", "-g")] + ["-O0", "-g1"]
+    return fl
+
+
+def api_leg(ctx, binary, ncases):
+    """Isomap / Landmark Isomap / Laplacian Eigenmaps instantiated as tapkee::embed does, i.e. through
+    ImplementationBase::find_neighbors_with and parameters[check_connectivity] (methods/base.hpp), on distinct-sample data
+    whose k-NN graph is mostly NOT strongly connected at the requested k.
+    flag on / default : no throw, finite embedding, finite matrix at the eigensolver; LE: every row of the Laplacian has at
+                        least as many neighbours as find_neighbors(.., true) returns;
+    flag off          : the Lean model (stronglyConnected on the lists of find_neighbors(.., false)) predicts whether the
+                        geodesic methods fail — they must fail exactly then, so the flag is observed to matter."""
+    r = ctx.rng
+    cases = []
+    tries = 0
+    while len(cases) < ncases and tries < 10 * ncases:
+        tries += 1
+        n = r.range(7, 16)
+        sp = data_clusters(r.fork(), n) if tries % 3 else data_chain(r.fork(), n)
+        if sp is None or G.size(sp) < 6 or sp.get("cb") != "plain":
+            continue
+        i = len(cases)
+        c = dict(sp)
+        c.update({"meth": ["isomap", "lisomap", "le"][i % 3], "cc": ["1", "default", "0"][(i // 3) % 3],
+                  "nm": METHODS[(i // 9) % 3], "k": r.choice([3, 3, 4]), "vs": G.vantage_stream(r, n)})
+        cases.append(c)
+    def line_of(c):
+        return "api meth=%s nm=%s k=%d cc=%s %s" % (c["meth"], c["nm"], c["k"], c["cc"],
+                                                     G.case_line("x", {k: v for k, v in c.items() if k in ("cb", "metric", "pts", "vs")})[2:])
+    lines = [line_of(c) for c in cases]
+    outs = ctx.run_impl_cases(binary, lines, env=OMP1, timeout=900)
+    conn = []
+    for c, o in zip(cases, outs):
+        f = fields_of(o) if not o.startswith("abort:") else {}
+        conn.append("conn N=%d lists=%s" % (G.size(c), f.get("lists0", "")))
+    rc, model, err = ctx.run_model("model_c03", conn)
+    if rc != 0 or len(model) != len(conn):
+        ctx.broken("model-driver", "model_c03", "model driver failed on the api leg: rc=%s %s" % (rc, err[-300:]))
+        return
+    for c, line, o, mo in zip(cases, lines, outs, model):
+        ctx.count(line, True)
+        ctx.stat("api:%s:cc=%s" % (c["meth"], c["cc"]))
+        ctx.cov["traces_validated_against_impl"] += 1
+        if o.startswith("abort:"):
+            report(ctx, "fail", "api:abort:" + o[6:60], "%s through the method class aborts (%s)" % (c["meth"], o[6:]), line, {"impl": o})
+            continue
+        f = fields_of(o)
+        sc0 = fields_of(mo).get("sc")
+        ok = f.get("obs") == "ok" and f.get("fin") == "1" and f.get("gfin") == "1"
+        if sc0 == "0":
+            ctx.stat("api:graph-at-requested-k-not-strongly-connected")
+        if c["cc"] in ("1", "default"):
+            if not ok:
+                report(ctx, "fail", "api:check-connectivity-ignored:" + c["meth"],
+                       "%s with check_connectivity=%s on distinct samples throws / returns non-finite values (%s): the "
+                       "neighbourhood graph handed to the method has unreachable pairs" % (c["meth"], c["cc"], o[:120]), line,
+                       {"impl": o, "model": mo})
+            elif c["meth"] == "le" and int(f.get("minnz", "0")) < int(f.get("kcc", "0")):
+                report(ctx, "fail", "api:check-connectivity-ignored:le",
+                       "Laplacian Eigenmaps with check_connectivity=%s built its Laplacian on fewer neighbours (%s) than "
+                       "find_neighbors(.., true) returns (%s)" % (c["cc"], f.get("minnz"), f.get("kcc")), line, {"impl": o, "model": mo})
+            else:
+                ctx.stat("api:agree")
+        else:
+            if c["meth"] in ("isomap", "lisomap"):
+                if sc0 == "0" and ok:
+                    report(ctx, "broken", "api:flag-off-no-failure", "correspondence c03_api: with check_connectivity=false the model "
+                           "predicts unreachable pairs (graph at k not strongly connected) but %s returned finite values" % c["meth"],
+                           line, {"impl": o, "model": mo}, broken="correspondence c03_api (check_connectivity=false)")
+                elif sc0 == "1" and not ok:
+                    report(ctx, "fail", "api:strongly-connected-but-fails", "%s fails on a strongly connected neighbourhood graph (%s)"
+                           % (c["meth"], o[:120]), line, {"impl": o, "model": mo})
+                else:
+                    ctx.stat("api:agree")
+                    if sc0 == "0":
+                        ctx.stat("api:flag-observed-to-matter")
+            else:
+                ctx.stat("api:agree")
+
+
 # ----------------------------------------------------------------------------- driver
 def correspond(ctx):
-    binary, log = ctx.build_harness("c03_conn.cpp", extra=common_flag())
+    from concurrent.futures import ThreadPoolExecutor
+    with ThreadPoolExecutor(max_workers=2) as ex:
+        fut_api = ex.submit(ctx.build_harness, "c03_api.cpp", None, common_flag(), api_flags())
+        binary, log = ctx.build_harness("c03_conn.cpp", extra=common_flag())
+        api_binary, api_log = fut_api.result()
     if not binary:
         ctx.broken("harness-build", "harness c03_conn.cpp", "harness does not compile against the repository: " + log[-1500:])
         return
+    if not api_binary:
+        ctx.broken("harness-build:api", "harness c03_api.cpp", "harness does not compile against the repository: " + api_log[-1500:])
     ctx.seen_sigs = set()
     r = ctx.rng
     quick = ctx.tier == "quick"
@@ -587,6 +676,8 @@ def correspond(ctx):
         sub = [grp for nm, grp in fgroups if nm == name]
         for i in range(0, len(sub), 60):
             judge_fn(ctx, binary, sub[i:i + 60], name)
+    if api_binary and not (rp and rp.get("case")):
+        api_leg(ctx, api_binary, 36 if quick else 300)
     if not quick:
         from checks.c02 import isomap_leg
         isomap_leg(ctx, 300, "c03")
